@@ -12,7 +12,11 @@ files = sh("git", "diff", "--cached", "--name-only").stdout.split()
 for f in files:
     new = open("/repo/" + f).read()
     old = sh("git", "show", "HEAD:" + f).stdout
-    if "#[cfg(test)]" in new and "#[cfg(test)]" in old:
+    if "#[cfg(test)]" in new and "#[cfg(test)]" not in old:
+        merged = new.split("#[cfg(test)]")[0].rstrip() + "\n"
+        open("/repo/" + f, "w").write(merged)
+        print("dropped new test module from", f)
+    elif "#[cfg(test)]" in new and "#[cfg(test)]" in old:
         merged = new.split("#[cfg(test)]")[0] + "#[cfg(test)]" + old.split("#[cfg(test)]", 1)[1]
         if merged != new:
             open("/repo/" + f, "w").write(merged)
